@@ -106,8 +106,9 @@ def _worker(args):
             done += 1
             if len(st.samples) < 2:
                 st.samples.append(sample_of(case))
+            pin = getattr(mod, 'pin', None)
             for sig, msg in res:
-                viols.append((sig, msg, case, seed))
+                viols.append((sig, msg, pin(case, sig) if pin else case, seed))
     finally:
         sim.close()
         faulthandler.cancel_dump_traceback_later()
